@@ -1032,6 +1032,7 @@ func visitExprHandles(kind ir.ExpressionKind, f func(ir.ExpressionHandle)) {
 		if k.DepthRef != nil {
 			f(*k.DepthRef)
 		}
+		visitSampleLevelHandles(k.Level, f)
 	case ir.ExprImageLoad:
 		f(k.Image)
 		f(k.Coordinate)
@@ -1046,9 +1047,28 @@ func visitExprHandles(kind ir.ExpressionKind, f func(ir.ExpressionHandle)) {
 		}
 	case ir.ExprImageQuery:
 		f(k.Image)
+		if q, ok := k.Query.(ir.ImageQuerySize); ok && q.Level != nil {
+			f(*q.Level)
+		}
+	case ir.ExprRayQueryGetIntersection:
+		f(k.Query)
 	case ir.ExprPhi:
 		for _, inc := range k.Incoming {
 			f(inc.Value)
 		}
+	}
+}
+
+// visitSampleLevelHandles invokes f for every ExpressionHandle held by
+// an ExprImageSample.Level variant (explicit LOD, bias, or gradients).
+func visitSampleLevelHandles(level ir.SampleLevel, f func(ir.ExpressionHandle)) {
+	switch l := level.(type) {
+	case ir.SampleLevelExact:
+		f(l.Level)
+	case ir.SampleLevelBias:
+		f(l.Bias)
+	case ir.SampleLevelGradient:
+		f(l.X)
+		f(l.Y)
 	}
 }
